@@ -27,7 +27,7 @@ def main():
     log["tests_patched"] = out.strip()
     res = {}
     for c in checks:
-        env = dict(os.environ, VERIF_REPO=repo)
+        env = dict(os.environ, VERIF_REPO=repo, VERIF_EVIDENCE_DIR="/verif/build/seed_evidence")
         p = subprocess.run(["./check", c], cwd="/verif", env=env, capture_output=True, text=True)
         lines = [l for l in p.stdout.splitlines() if l.startswith(("VIOLATION", "KNOWN-FINDING", "["))]
         res[c] = {"exit": p.returncode, "lines": lines[:6], "broken": [l for l in p.stderr.splitlines() if "BROKEN" in l][:4]}
